@@ -23,7 +23,7 @@ func (m *Machine) wrap(r *Term, w int, signed bool) *Term {
 	}
 	r = m.nameTerm(r)
 	in := tAnd(tCmpRaw("le", mkConst(lo, w), r), tCmpRaw("le", r, mkConst(hi, w)))
-	if m.decide([]*Term{in, tNot(in)}) == 0 {
+	if m.decide2(in, tNot(in)) == 0 {
 		c := *r
 		c.Lo, c.Hi = maxNil(r.Lo, lo), minNil(r.Hi, hi)
 		return &c
@@ -805,6 +805,11 @@ func (m *Machine) builtin(b *ssa.Builtin, cc *ssa.CallCommon, args []Value) Valu
 		return nil
 	case "recover":
 		return Iface{}
+	case "ssa:wrapnilchk":
+		if p, ok := args[0].(Ptr); ok && p.C == nil {
+			m.goPanic("value method called using nil pointer")
+		}
+		return args[0]
 	case "min", "max":
 		acc := args[0].(*Term)
 		_, signed, _ := intInfo(cc.Args[0].Type())
